@@ -259,7 +259,7 @@ def needs_safe_prefix(name: str) -> bool:
     return (not slug) or (not slug[0].isalpha()) or bool(re.match(r"^-\d*\.?\d+$", name)) or keyword.iskeyword(name) or text.is_reserved(name)
 
 
-def generation_case(ctx, kind, files, main, oname, opts, mut, traces, tag):
+def generation_case(ctx, kind, files, main, oname, opts, mut, traces, tag, must_generate=False):
     from xsdata.codegen.exceptions import CodegenError
 
     gen = cg.generate(files, main, options=opts, config_mutator=mut)
@@ -268,6 +268,9 @@ def generation_case(ctx, kind, files, main, oname, opts, mut, traces, tag):
         info = {"kind": kind, "options": oname, "sources": {k: (v if isinstance(v, str) else repr(v))[:2500] for k, v in files.items()}}
         ctx.case(("gen", kind, json.dumps(info["sources"], sort_keys=True), oname))
         if gen.error is not None:
+            if must_generate and isinstance(gen.error, CodegenError):
+                # a source set that is valid by construction: being refused is a failure, however polite
+                ctx.violation(f"generation from a valid {kind} source set is refused ({oname}): {type(gen.error).__name__}: {gen.error}", info)
             if not isinstance(gen.error, CodegenError):
                 import traceback
 
@@ -328,8 +331,31 @@ def collision_generations(ctx, naming_cases, osets, traces):
         oname, opts, mut = osets[0] if k % 3 else osets[1 + k % (len(osets) - 1)]
         if mut is not None:       # other naming conventions have other collision classes
             oname, opts, mut = osets[0]
-        generation_case(ctx, f"xsd-collision-{conv}", {"h.xsd": xsd}, ["h.xsd"], oname, opts, mut, traces, f"coll-{k}")
+        generation_case(ctx, f"xsd-collision-{conv}", {"h.xsd": xsd}, ["h.xsd"], oname, opts, mut, traces, f"coll-{k}", must_generate=True)
     ctx.extra["collision_classes"] = len(coll)
+
+
+def cross_package_generations(ctx, traces):
+    """Classes that refer to each other ACROSS sub-packages whose module paths share leading and trailing parts
+    (pkg.a.types <-> pkg.b.types), with absolute and with relative imports: every module must import."""
+    from xsdata.models.config import StructureStyle
+
+    # b/types depends on a/types (an extension, i.e. an import at module level); no cycle between the modules
+    a_xsd = ('<xs:schema xmlns:xs="http://www.w3.org/2001/XMLSchema" targetNamespace="urn:a:types" xmlns:t="urn:a:types" elementFormDefault="qualified">'
+             '<xs:complexType name="Base"><xs:sequence><xs:element name="v" type="xs:string"/></xs:sequence></xs:complexType>'
+             '<xs:element name="base" type="t:Base"/></xs:schema>')
+    b_xsd = ('<xs:schema xmlns:xs="http://www.w3.org/2001/XMLSchema" targetNamespace="urn:b:types" xmlns:t="urn:b:types" xmlns:o="urn:a:types" elementFormDefault="qualified">'
+             '<xs:import namespace="urn:a:types" schemaLocation="../a/types.xsd"/>'
+             '<xs:complexType name="Own"><xs:complexContent><xs:extension base="o:Base"><xs:sequence><xs:element name="w" type="xs:int"/>'
+             '<xs:element name="peer" type="o:Base" minOccurs="0"/></xs:sequence></xs:extension></xs:complexContent></xs:complexType>'
+             '<xs:element name="own" type="t:Own"/></xs:schema>')
+    files = {"a/types.xsd": a_xsd, "b/types.xsd": b_xsd}
+    k = 0
+    for style in (StructureStyle.FILENAMES, StructureStyle.NAMESPACES, StructureStyle.CLUSTERS):
+        for rel in (True, False):
+            k += 1
+            generation_case(ctx, "xsd-cross-package", files, ["a/types.xsd", "b/types.xsd"], f"{style.value}-{'relative' if rel else 'absolute'}",
+                            {"structure_style": style, "relative_imports": rel}, None, traces, f"cross-{k}", must_generate=True)
 
 
 def graph_generations(ctx, traces):
@@ -359,7 +385,7 @@ def graph_generations(ctx, traces):
         if k % 4 == 0:
             g = {"edges": {**g["edges"], "1": sorted(set(g["edges"]["1"]) | {1})}}
         oname, opts = styles[k % len(styles)]
-        generation_case(ctx, "xsd-graph", {"g.xsd": graph_xsd(g)}, ["g.xsd"], oname, opts, None, traces, f"graph-{k}")
+        generation_case(ctx, "xsd-graph", {"g.xsd": graph_xsd(g)}, ["g.xsd"], oname, opts, None, traces, f"graph-{k}", must_generate=True)
     ctx.extra["dependency_graphs_generated"] = len(pick)
 
 
@@ -428,6 +454,7 @@ def run(ctx):
             generation_case(ctx, kind, {fname: src}, [fname], oname, opts, mut, traces, f"{kind}-{k}")
     collision_generations(ctx, uniq, osets, traces)
     graph_generations(ctx, traces)
+    cross_package_generations(ctx, traces)
     # the finding F28 is exercised by its reproducer in every run
     generation_case(ctx, "xml-sample", {"h.xml": '<root><type self="1"/><\u0394 a="1">x</\u0394>text</root>'}, ["h.xml"], "default", {}, None, traces, "f28")
     # the repository's own fixtures through every option set
